@@ -24,6 +24,7 @@ from .. import core, obs, seeds
 from ..ref import calref
 
 ID = "C18"
+AMBIENT = {"ws": 6}     # this module varies the other setting itself
 US = 1_000_000
 LOCALES = ("cs", "da", "de", "en", "en_gb", "en_us", "es", "fa", "fo", "fr", "he", "id", "it", "ja", "ko", "lt", "nb",
            "nl", "nn", "pl", "pt_br", "ru", "sk", "sv", "tr", "ua", "zh")
